@@ -16,6 +16,84 @@ NAMES = ["a", "b", "c", "foo", "Bar", "_", "_x1", "x_9", "A9_z", "__typename", "
          "type", "schema", "extend", "implements", "input", "enum", "union", "interface",
          "scalar", "directive", "Int", "String", "QUERY", "FIELD"]
 RESERVED_VALUES = ("true", "false", "null")
+
+# every word the parser compares a Name against, and their non-empty proper substrings: a name that is
+# merely PART of a keyword (or contains one) is an ordinary name at every name position
+KEYWORDS = ["on", "true", "false", "null", "query", "mutation", "subscription", "fragment", "schema", "scalar",
+            "type", "interface", "union", "enum", "input", "extend", "directive", "implements", "repeatable"]
+
+
+def keyword_substrings(maxlen=None):
+    seen, out = set(), []
+    for w in KEYWORDS:
+        for i in range(len(w)):
+            for j in range(i + 1, len(w) + 1):
+                sub = w[i:j]
+                if sub == w or sub in seen or (maxlen and len(sub) > maxlen):
+                    continue
+                seen.add(sub)
+                out.append(sub)
+    return out
+
+
+KEYWORD_PARTS_SHORT = keyword_substrings(2)
+KEYWORD_PARTS_LONG = [x for x in keyword_substrings() if len(x) > 2]
+# prefixes / suffixes one character short of the keyword, and keywords with one more character
+KEYWORD_NEAR = sorted({w[:-1] for w in KEYWORDS if len(w) > 2} | {w[1:] for w in KEYWORDS if len(w) > 2}
+                      | {w + "x" for w in KEYWORDS} | {"x" + w for w in KEYWORDS} | {w.upper() for w in KEYWORDS}
+                      | {w.capitalize() for w in KEYWORDS})
+NAME_PARTS = [x for x in KEYWORD_PARTS_SHORT + KEYWORD_NEAR if x not in NAMES]
+
+# every position of the grammar that takes a Name (or a word compared with a keyword next to one)
+NAME_POSITIONS_EXEC = [
+    ("fragment-name", "fragment %s on T { a }"), ("spread", "{ ...%s }"), ("spread-2", "{ a ...%s @d b }"),
+    ("field", "{ %s }"), ("alias", "{ %s: a }"), ("aliased-field", "{ a: %s }"), ("argument", "{ a(%s: 1) }"),
+    ("operation-name", "query %s { a }"), ("variable-def", "query ($%s: Int) { a }"), ("variable", "{ a(x: $%s) }"),
+    ("directive", "{ a @%s }"), ("directive-argument", "{ a @d(%s: 1) }"), ("inline-type-condition", "{ ... on %s { a } }"),
+    ("fragment-type-condition", "fragment F on %s { a }"), ("variable-type", "query ($v: [%s!]) { a }"),
+    ("enum-value", "{ a(x: %s) }"), ("object-field", "{ a(x: {%s: 1}) }"), ("nested-field", "{ a { %s } }"),
+    ("mutation-name", "mutation %s { a }"),
+]
+NAME_POSITIONS_FV = [("fragment-name-vars", "fragment %s($v: Int) on T { a }"), ("fragment-var", "fragment F($%s: Int) on T { a }")]
+NAME_POSITIONS_SDL = [
+    ("type-name", "type %s { a: Int }"), ("field-def", "type T { %s: Int }"), ("argument-def", "type T { a(%s: Int): Int }"),
+    ("field-type", "type T { a: %s }"), ("implements", "type T implements %s { a: Int }"), ("enum-value-def", "enum E { %s }"),
+    ("enum-name", "enum %s { A }"), ("union-member", "union U = %s"), ("union-name", "union %s = A"),
+    ("input-field", "input I { %s: Int }"), ("input-name", "input %s { a: Int }"), ("scalar-name", "scalar %s"),
+    ("directive-def", "directive @%s on FIELD"), ("schema-op-type", "schema { query: %s }"),
+    ("extend-type", "extend type %s @d"), ("interface-name", "interface %s { a: Int }"),
+    ("default-enum", "input I { a: E = %s }"), ("sdl-directive", "scalar S @%s"),
+]
+
+
+def name_position_cases(quick, rng):
+    """(flags, text, label): every name position x every short part of a keyword (and, in thorough
+    or sampled in quick, the longer parts and near-keywords)"""
+    f0, fv, ts = (False, False, False), (False, False, True), (False, True, False)
+    names = list(KEYWORD_PARTS_SHORT)
+    longer = KEYWORD_PARTS_LONG + KEYWORD_NEAR
+    names += rng.sample(longer, 25) if quick else longer
+    # quick: fragment names and spreads take every name, the other positions every one-letter part and a sample
+    everywhere = set(names) if not quick else ({n for n in names if len(n) == 1} | set(rng.sample(names, 12)))
+    out = []
+    for n in names:
+        for label, tpl in NAME_POSITIONS_EXEC[:3]:
+            out.append((f0, tpl % n, label))
+        for label, tpl in NAME_POSITIONS_EXEC[:2] + NAME_POSITIONS_FV[:1]:
+            out.append((fv, tpl % n, label))
+        if n not in everywhere:
+            continue
+        for label, tpl in NAME_POSITIONS_EXEC[3:]:
+            out.append((f0, tpl % n, label))
+        for label, tpl in NAME_POSITIONS_FV[1:]:
+            out.append((fv, tpl % n, label))
+        for label, tpl in NAME_POSITIONS_SDL:
+            out.append((ts, tpl % n, label))
+        if not quick:
+            for label, tpl in NAME_POSITIONS_EXEC[:3]:
+                for fl in FLAG_TRIPLES:
+                    out.append((fl, tpl % n, label))
+    return out
 NUMBERS_INT = ["0", "-0", "1", "7", "42", "-9", "1234567890123456789012", "10", "-100"]
 NUMBERS_FLOAT = ["0.0", "-0.0", "1.5", "3.14159", "1e5", "1E5", "1e+5", "1e-5", "1e05", "1E+05",
                  "1.0e00", "-1.25e-007", "0e0", "0.000", "12.50E+3", "9e99"]
@@ -105,7 +183,7 @@ class Grammar:
 
     def name(self, exclude=()):
         while True:
-            n = self.rng.choice(NAMES)
+            n = self.rng.choice(NAME_PARTS if self.rng.random() < 0.25 else NAMES)
             if n not in exclude:
                 return (W, n)
 
